@@ -41,6 +41,68 @@ package main
 //@   requires c != nil && m != nil
 //@   ensures err == nil
 //
+// The metrics log: each of the eight event counters is published through binCount (and nothing else is: the
+// remaining figures are sizes of per-period address sets).
+//@ func (m *Metrics) printMetrics()
+//@   props C19
+//@   model int
+//@   requires m != nil && m.logger != nil
+//@   flag nooverflow (fewer than 2^63 distinct addresses per period)
+//  binCount goes through float64 and is exact up to 2^53: fewer events than that per period are assumed
+//@   assumes m.proxyIdleCount <= 1<<53 && m.proxyPollWithRelayURLExtension <= 1<<53 && m.proxyPollWithoutRelayURLExtension <= 1<<53 && m.proxyPollRejectedWithRelayURLExtension <= 1<<53
+//@   assumes m.clientDeniedCount <= 1<<53 && m.clientRestrictedDeniedCount <= 1<<53 && m.clientUnrestrictedDeniedCount <= 1<<53 && m.clientProxyMatchCount <= 1<<53
+//@   at call binCount#1 assert {idle} arg0 == m.proxyIdleCount
+//@   at call binCount#2 assert {with-relay-url} arg0 == m.proxyPollWithRelayURLExtension
+//@   at call binCount#3 assert {without-relay-url} arg0 == m.proxyPollWithoutRelayURLExtension
+//@   at call binCount#4 assert {rejected-relay-url} arg0 == m.proxyPollRejectedWithRelayURLExtension
+//@   at call binCount#5 assert {denied} arg0 == m.clientDeniedCount
+//@   at call binCount#6 assert {restricted-denied} arg0 == m.clientRestrictedDeniedCount
+//@   at call binCount#7 assert {unrestricted-denied} arg0 == m.clientUnrestrictedDeniedCount
+//@   at call binCount#8 assert {matched} arg0 == m.clientProxyMatchCount
+//@   loop 1 invariant calls(binCount) == 0
+//@   ensures calls(binCount) == 8
+//
+// Per-period unique addresses: an address already recorded for its proxy type changes nothing (it is counted once);
+// a new one is added to exactly its own type's set and bumps at most one country count by one.
+//@ pred ucsSeen(m *Metrics, addr string, pt string) = ite(has(m.countryStats.proxies, pt), m.countryStats.proxies[pt][addr], m.countryStats.unknown[addr])
+// Well-formed per-period statistics: every set exists, the sets are separate map objects, and they only ever hold
+// `true` (so their sizes are numbers of distinct addresses). Established by NewMetrics, re-established by zeroMetrics.
+//@ pred csMaps(m *Metrics) = m.countryStats.proxies != nil && m.countryStats.unknown != nil && m.countryStats.counts != nil && m.countryStats.natRestricted != nil && m.countryStats.natUnrestricted != nil && m.countryStats.natUnknown != nil && m.countryStats.unknown != m.countryStats.natRestricted && m.countryStats.unknown != m.countryStats.natUnrestricted && m.countryStats.unknown != m.countryStats.natUnknown
+//@ pred csType(m *Metrics, pt string) = has(m.countryStats.proxies, pt) ==> m.countryStats.proxies[pt] != nil && allocated(m.countryStats.proxies[pt]) && m.countryStats.proxies[pt] != m.countryStats.natRestricted && m.countryStats.proxies[pt] != m.countryStats.natUnrestricted && m.countryStats.proxies[pt] != m.countryStats.natUnknown && m.countryStats.proxies[pt] != m.countryStats.unknown
+//@ pred ucsSets(m *Metrics, pt string) = (forall a string :: has(m.countryStats.unknown, a) ==> m.countryStats.unknown[a]) && (has(m.countryStats.proxies, pt) ==> (forall a string :: has(m.countryStats.proxies[pt], a) ==> m.countryStats.proxies[pt][a]))
+//@ pred metricsWF(m *Metrics) = csMaps(m) && (forall pt string :: csType(m, pt)) && (forall pt string :: ucsSets(m, pt))
+//
+//@ func NewMetrics(metricsLogger *log.Logger) (r *Metrics, err error)
+//@   props C19
+//@   model int
+//@   loop 1 invariant m != nil && csMaps(m) && (forall pt string :: csType(m, pt)) && (forall pt string :: ucsSets(m, pt)) && fresh(m)
+//@   at call logMetrics assert {wf-when-published} metricsWF(m)
+//@   ensures err == nil && r != nil
+//
+//@ func (m *Metrics) zeroMetrics()
+//@   props C19
+//@   model int
+//@   requires m != nil && metricsWF(m)
+//@   loop 1 invariant csMaps(m) && (forall pt string :: csType(m, pt)) && (forall pt string :: ucsSets(m, pt)) && len(m.countryStats.unknown) == entry(len(m.countryStats.unknown))
+//@   ensures {wf} metricsWF(m)
+//@   ensures {zeroed} m.proxyIdleCount == 0 && m.clientDeniedCount == 0 && m.clientRestrictedDeniedCount == 0 && m.clientUnrestrictedDeniedCount == 0 && m.clientProxyMatchCount == 0 && m.proxyPollWithRelayURLExtension == 0 && m.proxyPollWithoutRelayURLExtension == 0 && m.proxyPollRejectedWithRelayURLExtension == 0
+//@   ensures {emptied} len(m.countryStats.unknown) == 0 && len(m.countryStats.natRestricted) == 0 && len(m.countryStats.natUnrestricted) == 0 && len(m.countryStats.natUnknown) == 0 && len(m.countryStats.counts) == 0
+//
+//@ func (m *Metrics) UpdateCountryStats(addr string, proxyType string, natType string)
+//@   props C19
+//@   model int
+//@   flag nooverflow (fewer than 2^63 distinct addresses per country and period)
+//@   flag paths
+//@   assumes m != nil && metricsWF(m)
+//@   assumes m.promMetrics != nil && m.promMetrics.ProxyTotal != nil
+//@   ensures {sets} ucsSets(m, proxyType)
+//@   ensures {recorded} ucsSeen(m, addr, proxyType)
+//@   ensures {once} old(ucsSeen(m, addr, proxyType)) ==> (forall c string :: m.countryStats.counts[c] == old(m.countryStats.counts[c])) && len(m.countryStats.unknown) == old(len(m.countryStats.unknown))
+//@   ensures {once-per-type} old(ucsSeen(m, addr, proxyType)) && has(m.countryStats.proxies, proxyType) ==> len(m.countryStats.proxies[proxyType]) == old(len(m.countryStats.proxies[proxyType]))
+//@   ensures {new} !old(ucsSeen(m, addr, proxyType)) && has(m.countryStats.proxies, proxyType) ==> len(m.countryStats.proxies[proxyType]) == old(len(m.countryStats.proxies[proxyType])) + 1
+//@   ensures {new-unknown} !old(ucsSeen(m, addr, proxyType)) && !has(m.countryStats.proxies, proxyType) ==> len(m.countryStats.unknown) == old(len(m.countryStats.unknown)) + 1
+//@   ensures {at-most-one} forall c string :: m.countryStats.counts[c] == old(m.countryStats.counts[c]) || m.countryStats.counts[c] == old(m.countryStats.counts[c]) + 1
+//
 // ---- matching state (C02, C03) ----
 // SnowflakeHeap: heap.Interface laws proved for the real methods.
 //   shIndexed  every entry knows its own position (so entries are pairwise distinct)
